@@ -22,6 +22,9 @@ mod srctree;
 mod eng_src;
 mod eng_dir;
 mod eng_cell;
+mod child;
+mod eng_hrlive;
+mod eng_idle;
 
 use common::*;
 use std::{fs, io::Write, path::PathBuf};
@@ -43,6 +46,7 @@ fn engines() -> Vec<Box<dyn Engine>> {
 
 fn main() {
     let args: Vec<String> = std::env::args().collect();
+    child::maybe_run_child(&args);   // `amh --child <engine> <op line>` (engines hrlive, idle)
     if args.len() < 2 {
         eprintln!("usage: amh <engine> --seed S --cases N --tier quick|thorough --out DIR [--replay FILE]");
         std::process::exit(2);
